@@ -40,8 +40,9 @@ CHECKS = {
     "C19": {
         "level": "fault_enumeration",
         "legs": [("reject", "C19")],
-        "quick": {"runs": 440, "wall": 70},
+        "quick": {"runs": 224, "wall": 60},
         "thorough": {"runs": 20000, "wall": 1800},
+        "selftest_runs": 96,
     },
 }
 
